@@ -8,11 +8,14 @@
      out      "ret" the call returned, "panic" a panic was recovered around it, "exit" the child
               process ended inside the call (write-ahead marker without an end marker)
      status   exit status of the child when out = "exit"
-     pv       "msg" when the recovered panic value is a string equal to the message
-     nrec     number of complete records of that call found in the write-through recorder
-              (decoded by independent decoders; everything found there was written BEFORE the
-              process ended / the panic was recovered)
-     rec      "complete" / "none" / "incomplete:<why>" / "skip" (severity other than Panic/Fatal)
+     pv       "msg" when the recovered panic value is a string equal to the WHOLE message
+              (whatever its size), "other" otherwise
+     nrec     number of records of that call found in the write-through recorders (everything
+              found there was written BEFORE the process ended / the panic was recovered);
+              nothing can be found where the cell's destination class has no recording writer
+              for the severity (Term!Recording) - the "written first" clause is skipped there
+     rec      "complete" (decoded by independent decoders; carries the whole message) / "none" /
+              "incomplete:<why>" / "skip" (severity other than Panic/Fatal)
 
    This module is a monitor: it consumes one line per step, rebuilds the cell, and evaluates the
    property predicates of Term (WriteThenTerminateP, OnlyWhenStatedP, FinalMatchesStatementP -
@@ -20,18 +23,22 @@
    A line that fails is collected in `bad` with the names of the failed predicates and the
    outcome the specification expected; `missing` counts cells of the table that were never
    observed (when ExpectAll).  The machine variables of Term are set to the specified final
-   state of the observed cell, so Term's state invariants are evaluated on every visited cell. *)
+   state of the observed cell, so Term's state invariants are evaluated on every visited cell.
+   `split` is the relational form of "termination does not depend on the destination or the
+   message size", evaluated on the observations alone: the Keys (severity, level, flags, mode)
+   for which two observed calls ended differently.                                           *)
 EXTENDS Term
 
 CONSTANTS TraceFile,     \* ndjson file written by the worker
-          ExpectAll      \* TRUE: every cell of Cells must occur in the log
+          ExpectAll      \* TRUE: every cell of the table must occur in the log
 
 VARIABLES i, bad
 
 TLog == ndJsonDeserialize(TraceFile)
 
 CellOf(e) == [ep |-> e.ep, recv |-> e.recv, r |-> e.r, L |-> e.L, ni |-> e.ni, ia |-> e.ia,
-              testing |-> e.testing, fmt |-> e.fmt, base |-> e.base, inp |-> e.inp]
+              testing |-> e.testing, fmt |-> e.fmt, base |-> e.base, inp |-> e.inp,
+              dst |-> e.dst, size |-> e.size]
 FinOf(e) == [out |-> e.out, status |-> e.status, pv |-> e.pv]
 
 \* the record counts as written only if the independent decoder found it complete
@@ -42,7 +49,7 @@ LineBad(e) ==
     ELSE Failed(CellOf(e), FinOf(e), WrittenOf(e))
 
 TInit == /\ i = 1 /\ bad = {}
-         /\ cell \in {CHOOSE c \in Cells : TRUE}
+         /\ cell = CellSeq[1]
          /\ pc = "call" /\ written = 0 /\ fin = NoFin
 
 TNext ==
@@ -61,11 +68,19 @@ TNext ==
 
 TSpec == TInit /\ [][TNext]_<<i, bad, cell, pc, written, fin>>
 
-\* cells of the table never observed (counted; a set difference of two large sets is quadratic in TLC)
+\* cells of the table never observed: the table has NCells cells, the orchestrator hands over a log
+\* whose lines have pairwise different coordinates, so it is the number of lines that are cells
+\* of the table that counts (building the set of a million observed cells is quadratic in TLC)
 Missing == IF ExpectAll
-           THEN Cardinality(Cells) - Cardinality({c \in {CellOf(TLog[k]) : k \in 1..Len(TLog)} : c \in Cells})
+           THEN NCells - Cardinality({k \in 1..Len(TLog) : IsCell(CellOf(TLog[k]))})
            ELSE 0
 
+\* Keys whose observed calls did not all end the same way (out, status, pv)
+ObsPairs == {<<Key(CellOf(TLog[k])), FinOf(TLog[k])>> : k \in 1..Len(TLog)}
+Split == IF Cardinality(ObsPairs) = Cardinality({p[1] : p \in ObsPairs}) THEN <<>>
+         ELSE SetToSeq({p[1] : p \in {p \in ObsPairs : \E q \in ObsPairs : q[1] = p[1] /\ q # p}})
+
 \* evaluated in every state; prints the verdict once the whole log is consumed
-Done == i <= Len(TLog) \/ PrintT("@@bad " \o ToJson([bad |-> SetToSeq(bad), missing |-> Missing, lines |-> Len(TLog)])) \/ TRUE
+Done == i <= Len(TLog) \/ PrintT("@@bad " \o ToJson([bad |-> SetToSeq(bad), missing |-> Missing, lines |-> Len(TLog),
+                                                    split |-> Split])) \/ TRUE
 =============================================================================
